@@ -148,6 +148,9 @@ class KInterp:
                 env[p] = self._lift_const(self.consts[p])
             else:
                 env[p] = GExpr.of(Poly.sym((param_syms or {}).get(p, p)))
+        va = fi.node.args.vararg
+        if va is not None and args and va.arg in args:
+            env[va.arg] = args[va.arg]
         k = Kernel(fi)
         st = {"fi": fi, "env": env, "G": G0 if G0 is not None else BExpr.true(), "loopvars": set(), "kernel": k, "mask": None,
               "returned": False}
@@ -257,6 +260,16 @@ class KInterp:
         if isinstance(s, ast.Continue):
             raise Unsupported("bare continue outside `if c: continue`")
         if isinstance(s, (ast.Import, ast.ImportFrom)):
+            # a function-local import binds its names where it is executed (the two arms of an `if` may bind one alias differently)
+            if isinstance(s, ast.ImportFrom) and s.module and s.level == 0:
+                for al in s.names:
+                    full = "%s.%s" % (s.module, al.name)
+                    if self.ix.has_module(full):
+                        st["env"][al.asname or al.name] = PyVal(("module", full))
+                    elif self.ix.has_module(s.module):
+                        r_ = self.ix.resolve(s.module, al.name)
+                        if r_ and r_[0] in ("func", "class"):
+                            st["env"][al.asname or al.name] = PyVal(r_[1])
             return
         raise Unsupported("statement form `%s` in %s" % (U(s).split("\n")[0][:70], st["fi"].qualname))
 
@@ -267,10 +280,12 @@ class KInterp:
         elif isinstance(s.value, ast.Tuple):
             vals = [self.eval(e, st) for e in s.value.elts]
             names = [U(e) for e in s.value.elts]
+            k.returns_sequence = True
         else:
             v = self.eval(s.value, st)
             if isinstance(v, (list, tuple)):
                 vals, names = list(v), [U(s.value) + "[%d]" % i for i in range(len(v))]
+                k.returns_sequence = True           # `return (x,)` is not `return x`
             else:
                 vals, names = [v], [U(s.value)]
         names = _role_names(st["fi"].name, names)
@@ -478,6 +493,13 @@ class KInterp:
             lv = "<zip-index>"
             for nm, arr in zip(s.target.elts, it.args):
                 extra[nm.id] = self.eval(arr, st)
+        elif isinstance(it, (ast.Tuple, ast.List)) and isinstance(s.target, ast.Name) and it.elts \
+                and all(isinstance(x, ast.Name) for x in it.elts):
+            # for a in (x, y, z): the loop variable is each of the named arrays in turn (an alias, in-place stores reach them)
+            for x in it.elts:
+                self.store(s.target, None, st, x)
+                self.block(s.body, st)
+            return
         else:
             seq = self.eval(it, st)
             if isinstance(seq, PyVal) and isinstance(seq.v, (list, tuple)):
@@ -512,6 +534,30 @@ class KInterp:
 
     # ------------------------------------------------------------------ stores
     def store(self, t, v, st, value_expr, aug=False):
+        """stores with array aliasing: after `a = b` (both names denote one numpy array) an in-place change through one name
+        (`a[mask] = 0`, `a += x`) is a change of the other; rebinding a name ends its aliasing"""
+        al = st.setdefault("alias", {})
+        if isinstance(t, ast.Name) and not aug:
+            src = value_expr.id if (v is None and isinstance(value_expr, ast.Name)) else None
+            grp = al.pop(t.id, None)
+            if grp is not None:
+                grp.discard(t.id)
+            self._store(t, v, st, value_expr, aug)
+            if src is not None and src != t.id and isinstance(st["env"].get(src), (GExpr, BExpr)) and not isinstance(st["env"].get(src), ColRef):
+                g2 = al.get(src)
+                if g2 is None:
+                    g2 = al[src] = {src}
+                g2.add(t.id)
+                al[t.id] = g2
+            return
+        self._store(t, v, st, value_expr, aug)
+        root = t.value if isinstance(t, ast.Subscript) else t
+        if isinstance(root, ast.Name) and root.id in al and root.id in st["env"]:
+            for other in al[root.id]:
+                if other != root.id:
+                    st["env"][other] = st["env"][root.id]
+
+    def _store(self, t, v, st, value_expr, aug=False):
         env = st["env"]
         G = st["G"]
         if isinstance(t, ast.Name):
@@ -1275,6 +1321,16 @@ class KInterp:
                     (m, c), = pb.terms.items()
                     return GExpr.of(Poly.sym("gather", m[0][0][1:], ik.key()))
                 if pb is not None:
+                    # rows of a sum / product of own-row pit columns: (A[:, X] + A[:, Y])[rows] is A[rows, X] + A[rows, Y]
+                    at = list(pb.atoms())
+                    if at and all(a[0] == "sym" and len(a) == 6 and a[1] == "col" and a[3] == OWN for a in at):
+                        out = Poly()
+                        for mono, coef in pb.terms.items():
+                            term = Poly.const(coef)
+                            for a, ex in mono:
+                                term = term * Poly.sym("col", a[2], ik.key(), a[4], a[5]).pow(ex)
+                            out = out + term
+                        return GExpr.of(out)
                     return GExpr.of(apply_fn("gather", [pb, ik]))
                 raise Unsupported("gather of a computed array %s" % U(e))
         if isinstance(idx, MaskedView):
@@ -1375,6 +1431,18 @@ class KInterp:
             else:
                 args.append(a)
         kw = {k.arg: k.value for k in e.keywords}
+        if f == "getattr" and len(e.args) == 2 and not e.keywords:
+            # reflective lookup of a repository function: getattr(<module>, <name known at analysis time>)
+            try:
+                m_, n_ = self.eval(e.args[0], st), self.eval(e.args[1], st)
+            except Unsupported:
+                m_ = n_ = None
+            if isinstance(m_, PyVal) and isinstance(m_.v, tuple) and len(m_.v) == 2 and m_.v[0] == "module" \
+                    and isinstance(n_, PyVal) and isinstance(n_.v, str):
+                r_ = self.ix.resolve(m_.v[1], n_.v)
+                if r_ and r_[0] in ("func", "class"):
+                    return PyVal(r_[1])
+                raise Unsupported("getattr(%s, %r) is no function of the package" % (m_.v[1], n_.v))
         if f == "hasattr":
             return PyVal(self.consts.get("hasattr:" + U(e.args[1]), True))
         if f in ("isinstance", "np.iterable", "numpy.iterable") and e.args:
@@ -1683,6 +1751,8 @@ class KInterp:
         a2 = {}
         for p, a in zip(ps, args):
             a2[p] = self.eval(a, st)
+        if g.node.args.vararg is not None:
+            a2[g.node.args.vararg.arg] = [self.eval(a, st) for a in args[len(ps):]]
         for k, v in kw.items():
             a2[k] = self.eval(v, st)
         # defaults of the callee
@@ -1707,9 +1777,9 @@ class KInterp:
         self.notes.extend(sub.notes)
         if k.early:
             self.notes.append("early return of inlined %s treated as shortcut" % g.name)
-        if len(k.outputs) == 1:
+        if len(k.outputs) == 1 and not getattr(k, "returns_sequence", False):
             return k.outputs[0]
-        if not k.outputs:
+        if not k.outputs and not getattr(k, "returns_sequence", False):
             return PyVal(None)
         return list(k.outputs)
 
